@@ -461,11 +461,10 @@ Lemma even_mul4 x : N.even (x * 4) = true.
 Proof. replace (x * 4) with (2 * (x * 2)) by lia. rewrite N.even_mul. reflexivity. Qed.
 
 (* ------------------- theorem: the kernel's segments have valid checksums *)
-(* Under the capacity bound: of every coalesced buffer the kernel makes as many
+(* Of every coalesced buffer the kernel makes as many
    segments as packets were merged into it, each with a valid IPv4 header
    checksum and a valid TCP/UDP checksum. *)
 Theorem gro_segment_checksums_valid : forall (canUDP : bool) (offset : N) (bufs : list buf) (j : N),
-  (forall b, In b bufs -> b_cap b <= 65535 + 2 * offset) ->
   let s := handle_gro canUDP offset bufs in
   s_err s = false -> merged_into (s_trace s) j ->
   let b := get_buf (s_bufs s) j in
@@ -473,17 +472,16 @@ Theorem gro_segment_checksums_valid : forall (canUDP : bool) (offset : N) (bufs 
   length segs = length (members (s_trace s) j) /\
   forallb (fun p => ip_csum_ok p && l4_csum_ok p) segs = true.
 Proof.
-  intros udp off inp j Hcaps s He. subst s. unfold handle_gro in *. rewrite gro_loop_is in *.
+  intros udp off inp j s He. subst s. unfold handle_gro in *. rewrite gro_loop_is in *.
   set (s0 := loop_k udp off inp (length inp)) in *.
   assert (He0 : s_err s0 = false) by (destruct (s_err s0) eqn:E; [cbn iota in He; congruence|reflexivity]).
   rewrite He0 in *. cbn [s_trace s_tw s_bufs]. intros Hmj.
   destruct (loop_inv_all udp off inp (length inp) (le_n _) He0) as [I [I2 I3]]. fold s0 in I, I2, I3.
-  destruct (loop_inv_hdr udp off inp (length inp) True (fun _ => caps_init off inp Hcaps) (le_n _) He0) as [IQ _]. fold s0 in IQ.
+  pose proof (loop_inv_hdr udp off inp (length inp) True (le_n _) He0) as IQ. fold s0 in IQ.
   destruct (i_cover _ I3 j Hmj) as [tcp [it [Hin Hidx]]].
   pose proof (sel_total_in _ _ _ Hin) as Hint.
   destruct (i_items _ _ _ I it Hint) as [Htw _].
   destruct (IQ tcp it Hin) as [[Hhl [Hg1 [Hiph [Hhd [Htc [Hmz [Hml Hch]]]]]]] [Hhf Hlen]].
-  specialize (Hlen Logic.I).
   destruct (i_bounds _ I3 tcp it Hin) as [Bg Bh].
   pose proof (members_length_merged _ _ Hmj) as Hlen2.
   rewrite Hidx in *.
